@@ -47,6 +47,7 @@ def units(tier, seed):
         us.append(('mutants', i))
         us.append(('invalid', i))
     us.append(('nesting',))
+    us.append(('macrocalls',))
     return us
 
 
@@ -206,6 +207,22 @@ def run_unit(unit, drv, res, seed, tier):
             texts = [t for t in texts if not recognises(t)]
             run_texts(res, drv, texts, 'invalid:' + name, must_reject=name)
             res.count("invalid_family:" + name, len(texts))
+    elif kind == 'macrocalls':
+        # every macro name in both call styles with 0-4 arguments of several kinds: the macro lookup goes by
+        # name, arity and receiver presence, and the expanders assume they are only called when those match
+        texts = []
+        args_pool = ['x', 'x > 1', '1', 'y.z', '[x]', 'x, y'.split(',')[0], '"s"', 'x.all(y, y)', 't(x)']
+        for name in ('has', 'all', 'exists', 'exists_one', 'existsOne', 'map', 'filter'):
+            for n in range(0, 5):
+                for combo in itertools.product(args_pool[:5], repeat=n) if n <= 3 else [tuple(args_pool[:4]), ('x', 'x', 'x', 'x'), ('1', '2', '3', '4')]:
+                    a = ', '.join(combo)
+                    texts.append('%s(%s)' % (name, a))
+                    texts.append('[1, 2, 3].%s(%s)' % (name, a))
+                    texts.append('m.f.%s(%s)' % (name, a))
+                    if n and combo[0] == 'x':
+                        texts.append('l.%s(%s).%s(%s)' % (name, a, name, a))
+        run_texts(res, drv, texts, 'macrocalls')
+        res.exhaustive_done['macro-names-x-arity-0-4'] = True
     elif kind == 'nesting':
         texts = []
         for d in (1, 2, 4, 8, 16, 24, 31, 32):
